@@ -36,10 +36,16 @@ def fileOf : FileSt → List Arg
   | .opened acc => acc.erase ddash
   | .closed f => f
 
+/-- take the action of a value option on the four lists, then wait for nothing -/
+def applyX (s : XSt) (a : Act) (w : Val) : Except PErr (Pend × XSt) :=
+  match s.cfg.apply a w with
+  | .ok c => .ok (.idle, { s with cfg := c })
+  | .error e => .error e
+
 def optStepX (s : XSt) (a : Arg) : Cls → Except PErr (Pend × XSt)
   | .opt o (some e) =>
     match o.kind with
-    | .value d => .ok (.idle, { s with cfg := s.cfg.add d (toVal e) })
+    | .value d => applyX s d (toVal e)
     | .ignoreReq => .ok (.idle, s)
     | .ignoreOpt => .ok (.idle, s)
     | .unsupported => .error .unsupported
@@ -54,7 +60,7 @@ def optStepX (s : XSt) (a : Arg) : Cls → Except PErr (Pend × XSt)
 def stepX (p : Pend) (s : XSt) : Tok → Except PErr (Pend × XSt)
   | .A a =>
     match p with
-    | .need d => .ok (.idle, { s with cfg := s.cfg.add d (toVal a) })
+    | .need d => applyX s d (toVal a)
     | .needIgn => .ok (.idle, s)
     | .optIgn => .ok (.idle, s)
     | _ => .ok (.idle, s.pos a)
@@ -204,6 +210,13 @@ theorem absSt_close (st : St) : (absSt st).close = absSt st := by
   unfold absSt XSt.close
   cases st.file <;> rfl
 
+theorem applyX_abs (st : St) (a : Act) (w : Val) :
+    applyX (absSt st) a w =
+      match st.cfg.apply a w with
+      | .ok c => .ok (.idle, absSt { st with cfg := c })
+      | .error e => .error e := by
+  simp only [applyX, absSt]
+
 /-- `consume_optional` followed by the rest of the loop = the option step of the one-pass form -/
 theorem optional_then_loop (n : Nat)
     (ih : ∀ st toks, toks.length < n → (loop n st toks).map St.result = sweep .idle (absSt st) toks)
@@ -225,7 +238,11 @@ theorem optional_then_loop (n : Nat)
     cases e with
     | some e =>
       cases hk : o.kind with
-      | value d => simp only [consumeOptional, optStepX, hk, nargsOf, takeAction]; exact ih _ rest hlen
+      | value d =>
+        simp only [consumeOptional, optStepX, hk, nargsOf, takeAction, applyX_abs]
+        cases hap : st.cfg.apply d (toVal e) with
+        | error err => rfl
+        | ok c => exact ih _ rest hlen
       | ignoreReq => simp only [consumeOptional, optStepX, hk, nargsOf, takeAction]; exact ih _ rest hlen
       | ignoreOpt => simp only [consumeOptional, optStepX, hk, nargsOf, takeAction]; exact ih _ rest hlen
       | unsupported => simp only [consumeOptional, optStepX, hk, nargsOf]; rfl
@@ -239,8 +256,10 @@ theorem optional_then_loop (n : Nat)
           cases x with
           | A v =>
             simp only [consumeOptional, optStepX, hk, nargsOf, matchArgument, takeAction, sweep, stepX,
-              List.take, List.drop, List.map, Tok.str]
-            exact ih _ r (by simp at hlen; omega)
+              List.take, List.drop, List.map, Tok.str, applyX_abs]
+            cases hap : st.cfg.apply d (toVal v) with
+            | error err => rfl
+            | ok c => exact ih _ r (by simp at hlen; omega)
           | DD => simp only [consumeOptional, optStepX, hk, nargsOf, matchArgument, sweep, stepX]; rfl
           | O b cl => simp only [consumeOptional, optStepX, hk, nargsOf, matchArgument, sweep, stepX]; rfl
       | ignoreReq =>
@@ -430,6 +449,14 @@ def tokOf (t : List Opt) (a : Arg) : Tok :=
 theorem toVal_ne (a : Arg) (h : a ≠ ddash) : toVal a = .str a := by
   unfold toVal; rw [if_neg]; exact h
 
+theorem applyX_spec (s : XSt) (c : Cfg) (hc : s.cfg = c) (a : Act) (w : Val) :
+    match applyX s a w with
+    | .ok r => applyIdle c a w = .ok (r.1, r.2.cfg) ∧ ¬ r.1 = .afterDD
+    | .error e => applyIdle c a w = .error e := by
+  subst hc
+  unfold applyX applyIdle
+  cases s.cfg.apply a w <;> simp
+
 /-- one step of the one-pass form on the token of `a` = one step of the left-to-right model on `a` -/
 theorem stepX_step (t : List Opt) (a : Arg) (p : Pend) (s : XSt) (hp : p ≠ .afterDD) (hne : a ≠ ddash)
     (hamb : classify t a ≠ .ambiguous) :
@@ -443,7 +470,8 @@ theorem stepX_step (t : List Opt) (a : Arg) (p : Pend) (s : XSt) (hp : p ≠ .af
   cases hc : classify t a with
   | ambiguous => exact absurd hc hamb
   | positional =>
-    cases p <;> simp [stepX, step, hv, hc, viewOfCls, idleStep, pos_cfg, htv] at hp ⊢
+    cases p <;> simp [stepX, step, hv, hc, viewOfCls, idleStep, pos_cfg, htv] at hp ⊢ <;>
+      exact applyX_spec _ _ rfl _ _
   | unknown =>
     cases p <;> simp [stepX, step, hv, hc, viewOfCls, idleStep, optStepX, close_cfg] at hp ⊢
   | opt o e =>
@@ -453,7 +481,8 @@ theorem stepX_step (t : List Opt) (a : Arg) (p : Pend) (s : XSt) (hp : p ≠ .af
         simp [stepX, step, hv, hc, viewOfCls, idleStep, optStepX, close_cfg, hk] at hp ⊢
     | some e =>
       cases hk : o.kind <;> cases p <;>
-        simp [stepX, step, hv, hc, viewOfCls, idleStep, optStepX, close_cfg, hk] at hp ⊢
+        simp [stepX, step, hv, hc, viewOfCls, idleStep, optStepX, close_cfg, hk] at hp ⊢ <;>
+        exact applyX_spec _ _ (close_cfg s) _ _
 
 theorem tokenize_cons (t : List Opt) (a : Arg) (rest : List Arg) (toks : List Tok) (hne : a ≠ ddash)
     (h : tokenize t (a :: rest) = .ok toks) :
